@@ -151,14 +151,35 @@ class Types:
                     c = self.class_of(e.a["val"], cat.eng)
                     if c:
                         self.reg_elem.setdefault(e.a["reg"], set()).update(c)
+                # parameters of repository functions, from the arguments at their call sites
+                for ent, p, e in cat.all_events("CALL"):
+                    fn = analysis.prog.funcs.get(e.a["func"])
+                    if fn is None or not e.a["args"]:
+                        continue
+                    params = [q for q in fn.params if q != "self"] if (fn.cls is not None and not fn.is_static) else list(fn.params)
+                    for q, arg in zip(params, e.a["args"]):
+                        c = self.class_of(arg, cat.eng, timer_func=ent.func.qual)
+                        if c:
+                            self.param_cls.setdefault((fn.qual, q), set()).update(c)
                 for ent, p, e in cat.all_events("ARM"):
                     tgt = e.a["target"]
+                    if isinstance(tgt, tuple) and tgt[0] == "partial":
+                        tgt, extra = tgt[1], tuple(tgt[2])
+                    else:
+                        extra = ()
                     if isinstance(tgt, tuple) and tgt[0] == "bm":
                         params = [q for q in tgt[2].params if q != "self"]
-                        for q, arg in zip(params, e.a["args"]):
-                            c = self.class_of(arg, cat.eng)
+                        for q, arg in zip(params, extra + tuple(e.a["args"])):
+                            c = self.class_of(arg, cat.eng, timer_func=ent.func.qual)
                             if c:
                                 self.param_cls.setdefault((tgt[2].qual, q), set()).update(c)
+                    if isinstance(tgt, tuple) and tgt[0] == "closure":
+                        # what the closure captured, as it was when the closure was made (seen from the function that made it)
+                        env, _, fi = cat.eng._closure_env[tgt[2]]
+                        for k, v in env.items():
+                            c = self.class_of(v, cat.eng, timer_func=ent.func.qual)
+                            if c:
+                                self.param_cls.setdefault((fi.qual, k), set()).update(c)
 
     def class_of(self, t, eng=None, timer_func=None):
         if not isinstance(t, tuple) or not t:
